@@ -183,7 +183,7 @@ func runC01(c *core.Ctx) {
 				ds = delta.ExactString()
 			}
 			construct := f.Name() + " AddInt64(" + ds + ")"
-			facts := core.FactsAt(f, call)
+			facts := core.CtlFactsAt(f, call)
 			switch ds {
 			case "1":
 				// accepted: root == nil (empty table insert), or isNew where isNew is result 1 of (*node).addPath
@@ -252,6 +252,38 @@ func runC01(c *core.Ctx) {
 			return true
 		})
 		c.Check(okAdd, "count-follows-node-result", nodeAdd.Name()+" became-new result", nodeAdd.Decl.Pos(), "no return of (*node).addPath reports the node's previous dummy flag as the became-new result: re-adding a prefix whose node was a dummy (or adding a second path) would mis-count")
+	}
+	// became-empty is reported only for a node that held a route: the non-recursive, non-constant result of
+	// (*node).removePath must be under `!n.dummy`
+	if nodeRemove != nil {
+		recv := core.RecvObj(nodeRemove)
+		n := 0
+		ast.Inspect(nodeRemove.Decl.Body, func(nd ast.Node) bool {
+			ret, ok := nd.(*ast.ReturnStmt)
+			if !ok || len(ret.Results) != 1 {
+				return true
+			}
+			if core.ConstOf(nodeRemove.Pkg, ret.Results[0]) != nil {
+				return true
+			}
+			if call, isCall := core.Unparen(ret.Results[0]).(*ast.CallExpr); isCall && core.Callee(nodeRemove.Pkg, call) == nodeRemove.Obj {
+				return true
+			}
+			n++
+			ok2 := false
+			for _, ft := range core.CtlFactsAt(nodeRemove, ret) {
+				if ft.Expr == nil || ft.Truth {
+					continue
+				}
+				if ds, isSel := core.Unparen(ft.Expr).(*ast.SelectorExpr); isSel && core.FieldOf(nodeRemove.Pkg, ds) == dummyF && core.ObjOf(nodeRemove.Pkg, ds.X) == recv {
+					ok2 = true
+				}
+			}
+			c.Check(ok2, "count-follows-node-result", fmt.Sprintf("%s became-empty result #%d only for a non-dummy node", nodeRemove.Name(), n), ret.Pos(),
+				"(*node).removePath reports `last path removed` for a node without establishing that the node held a route (was not a dummy): removing at an interior node or removing an already removed prefix decrements the route counter although no stored prefix went away")
+			return true
+		})
+		c.Check(n >= 1, "count-follows-node-result", nodeRemove.Name()+" reports became-empty", nodeRemove.Decl.Pos(), "(*node).removePath has no computed became-empty result")
 	}
 	// every call of the node operations from RoutingTable methods must use the result (one counter update per operation)
 	for _, f := range p.MethodsOf(pkg, "RoutingTable") {
